@@ -1,5 +1,6 @@
 import Bmc.Lemmas.HandshakeInv
 import Bmc.Spec.Rakp
+import Bmc.Lemmas.TruncatedReply
 /-! # C02 — no session unless the BMC proves knowledge of the password (property theorems only)
 
 No cryptographic claim: that another password gives another code is the MAC's job. Proved: a session is returned
@@ -80,5 +81,39 @@ theorem bad_status_or_tag (C : Ops) (o : Opts) (rm : Bytes) (osr : OpenSessionRs
     obtain ⟨a, b, _⟩ := stepRakp2_ok C o rm osr s2 rk h' h; exact ⟨a, b⟩
   · obtain ⟨_, _, _, p3, rk4, e1, e2, e3, e4, _⟩ := stepRakp4_ok C o rm osr rk2 hh s3 res h
     exact ⟨p3, rk4, e1, e2, e3, e4⟩
+
+-- truncated handshake messages -----------------------------------------------------------------------------------------
+
+/-- a reply that is a proper prefix of a session-less RMCP+ datagram (any payload type but OEM-explicit, any payload
+    that fits the length field, cut at ANY length) -/
+def IsTruncatedReply (o : Outcome) : Prop :=
+  ∃ (ptype : UInt8) (payload : Bytes) (n : Nat), ptype.toNat < 64 ∧ ptype ≠ 2 ∧ payload.length < 65536 ∧
+    n < (Spec.sessionless ptype payload).length ∧ o = .reply ((Spec.sessionless ptype payload).take n)
+
+/-- TRUNCATION: a handshake reply truncated at any length is never taken for the reply — one attempt of the exchange
+    treats it exactly like a reply that did not arrive (retry) -/
+theorem truncated_reply_is_not_a_reply (ptype : UInt8) (hpt : ptype.toNat < 64) (hoem : ptype ≠ 2) (payload : Bytes)
+    (hlen : payload.length < 65536) (n : Nat) (hn : n < (Spec.sessionless ptype payload).length) (rest : List Outcome) :
+    exchange (.reply ((Spec.sessionless ptype payload).take n) :: rest) = ((exchange rest).1 + 1, (exchange rest).2) := by
+  simp only [exchange, truncated_setup_reply_is_retry ptype hpt hoem payload hlen n hn]
+
+/-- … hence a BMC (or an attacker) that only ever delivers lost or truncated replies — to any of the three exchanges,
+    in any order, any number of them — never obtains a session: the call ends with an error when the context expires -/
+theorem only_truncated_replies_no_session (C : Ops) (o : Opts) (rm : Bytes) (script : List Outcome)
+    (h : ∀ x ∈ script, x = .lost ∨ IsTruncatedReply x) : (newSession C o rm script).2 = .error := by
+  have hex : ∀ s : List Outcome, (∀ x ∈ s, x = .lost ∨ IsTruncatedReply x) → (exchange s).2 = none := by
+    intro s hs
+    induction s with
+    | nil => rfl
+    | cons x rest ih =>
+      have ih' := ih (fun y hy => hs y (by simp [hy]))
+      rcases hs x (by simp) with rfl | ⟨pt, pl, n, h1, h2, h3, h4, rfl⟩
+      · simpa [exchange] using ih'
+      · rw [truncated_reply_is_not_a_reply pt h1 h2 pl h3 n h4]; exact ih'
+  unfold newSession stepOpen exchangePayload
+  simp only [hex script h]
+
+example : IsTruncatedReply (.reply ((Spec.sessionless 0x13 [1, 2, 3]).take 17)) :=
+  ⟨0x13, [1, 2, 3], 17, by decide, by decide, by decide, by decide, rfl⟩
 
 end Bmc.Proofs.C02
